@@ -476,9 +476,16 @@ func init() {
 	}
 	theory[pCoins+"Empty"] = theory[pCoins+"IsZero"]
 	theory[pCoins+"IsAllPositive"] = func(x *Exec, f *Frame, st *State, c *CallInfo) Val {
-		// all listed coins positive and non-empty; pointwise consequence: amounts >= 0
-		p := UF("coins_allpositive", SBool, c.T(0))
-		return p
+		// non-empty and every listed coin positive. In the array model (absent == 0): no negative entry and not all zero.
+		nn := x.coinsPred(st, "coins_nonneg", c.T(0), func(a *Term) *Term { return Ge(a, IntLit(0)) }, true)
+		z := x.coinsPred(st, "coins_iszero", c.T(0), func(a *Term) *Term { return Eq(a, IntLit(0)) }, true)
+		return And(nn, Not(z))
+	}
+	theory[pCoins+"Min"] = func(x *Exec, f *Frame, st *State, c *CallInfo) Val {
+		return x.pointwise(st, "coins_min", c.T(0), c.T(1), func(p, q *Term) *Term { return Ite(Le(p, q), p, q) })
+	}
+	theory[pCoins+"Max"] = func(x *Exec, f *Frame, st *State, c *CallInfo) Val {
+		return x.pointwise(st, "coins_max", c.T(0), c.T(1), func(p, q *Term) *Term { return Ite(Le(p, q), q, p) })
 	}
 	theory[pCoins+"IsValid"] = func(x *Exec, f *Frame, st *State, c *CallInfo) Val { return UF("coins_valid", SBool, c.T(0)) }
 	theory[pCoins+"Validate"] = func(x *Exec, f *Frame, st *State, c *CallInfo) Val {
